@@ -8,11 +8,23 @@ def jobs(tier):
              "_obligation": "O", "_covers": ["scheduled"], "unwind": 60} for a, b in ((0, 1), (2, 3), (4, 0), (1, 3))]
 
 
+from props import C02 as _c02, C20 as _c20
+
+API = ["GetAllDocIDs", "Exists", "Get"]
+
+
+def api_jobs(tier):
+    return [{"id": f"O2.api-in-txn.{n}", "func": "VerifH_C06_ApiInTxn", "conf": {"api": i, "preempt": 1, "branchable": 0, "faults": 0},
+             "_obligation": "O2", "_covers": ["called"]} for i, n in enumerate(API)]
+
+
 PROPERTY = {
     "id": "C06",
-    "suites": [{"name": "plumbing", "pkg": "internal/datastore", "files": ["zz_verif_txn.go", "zz_verif_c06.go"], "common": ["intrinsics", "kvmodel", "kvtxn"], "jobs": jobs}],
-    "bounds": {"transactions": 2, "schedule": "4 (thorough 5) steps, each a write / read / commit / discard of one of the two transactions", "store accessors": "two per schedule out of data, head, system, peer, root (pairs data-head, system-peer, root-data, head-peer)", "keys": "one key, the same bytes under both accessors", "values": "one symbolic byte"},
+    "suites": [{"name": "plumbing", "pkg": "internal/datastore", "files": ["zz_verif_txn.go", "zz_verif_c06.go"], "common": ["intrinsics", "kvmodel", "kvtxn"], "jobs": jobs},
+               dict(_c02.SUITE, name="api", jobs=api_jobs, files=_c20.SAVE_FILES + ["zz_verif_c06api.go"], common=["intrinsics", "kvmodel", "dagenv", "kvtxn"])],
+    "bounds": {"API level (O2)": "collection.GetAllDocIDs / Exists / Get inside one explicit transaction of a real db.NewTxn over the transactional store model; three documents: committed before the transaction started / written by the transaction / committed by someone else afterwards (each present or not: inputs); the scan goroutine of GetAllDocIDs runs under every schedule with 1 preemption",
+               "transactions": 2, "schedule": "4 (thorough 5) steps, each a write / read / commit / discard of one of the two transactions", "store accessors": "two per schedule out of data, head, system, peer, root (pairs data-head, system-peer, root-data, head-peer)", "keys": "one key, the same bytes under both accessors", "values": "one symbolic byte"},
     "assumptions": ["the store is the kvtxn model of the corekv contract: snapshot reads, own writes, read-write conflict detection at commit, nothing applied by a conflicting or discarded transaction"],
-    "outside_claim": ["the isolation mechanism itself (badger, corekv/memory): not code of this repository", "the API level: collection operations, requests and index maintenance inside explicit transactions (GraphQL, planner)",
+    "outside_claim": ["the isolation mechanism itself (badger, corekv/memory): not code of this repository", "the rest of the API level: writing collection operations, requests and index maintenance inside explicit transactions (GraphQL, planner); conflict detection between two writers of one document (decided by which keys the write path reads: store-level)",
                       "block and encryption stores (content-addressed wrappers over the same prefixes)", "thread interleavings inside one operation"],
 }
